@@ -492,4 +492,120 @@ example : (runH {} wcfg3 [] [wmp 2 0 1, wmp 1 4 5, wmp 2 4 5, wmp 1 11 12, wmp 2
     capLoop, Cfg.lookup, qInsert, key, keyLt, cacheStep, utf16LenV, utf16Len, lossyUnits, slice, lineRange, docsOf, docsOfP, docTexts,
     joinDocs, Tag.isIgnored, usizeMax, isLocal, Option.filter, scan, maxLineLen]
 
+
+
+/-! ## Round 5: the statements as the lead words them -/
+
+/-- **docs_chain_maximal.**  The selected docs are the MAXIMAL chain: if one more (earlier) doc node `d`
+stands right in front of the selected suffix, prepending it breaks the chain condition. -/
+theorem docs_chain_maximal (docs pre : List Cap) (d : Cap) (row : Nat)
+    (h : docs = pre ++ d :: selectSpec docs row) : chainOK (d :: selectSpec docs row) row = false := by
+  cases hc : chainOK (d :: selectSpec docs row) row with
+  | false => rfl
+  | true =>
+    have := (selectSpec_props docs row).2.2 pre (d :: selectSpec docs row) h hc
+    simp at this; omega
+
+/-- helper: a decodable byte string is well-formed and its spec length is `unitsOf`. -/
+theorem unitsOf_eq {b : Bytes} (h : (decodeUtf8 b.length b).isSome = true) :
+    utf16Spec b = unitsOf b ∧ validUtf8 b = true := by
+  cases hd : decodeUtf8 b.length b with
+  | none => simp [hd] at h
+  | some cps =>
+    exact ⟨by simp [unitsOf, hd, (utf16Len_decode _ _ _ hd).2.2], decode_valid _ _ _ hd⟩
+
+/-- **utf16_column_prefix.**  For tags (processed in any order) whose row prefix up to the name and whose
+name decode as UTF-8, `utf16_column_range.start` = UTF-16 code units of the row prefix and `.end` = start +
+units of the name — for the repaired `LossyUtf8` port and for the port pinned before the repair. -/
+theorem utf16_column_prefix (src : Bytes) (limit : Nat) (rowLs : Nat → Nat) (os : List Occ)
+    (hos : ∀ o ∈ os, o.ls = rowLs o.row ∧ o.ls ≤ o.name.s ∧ o.name.s ≤ o.name.e ∧
+             (decodeUtf8 (slice src o.ls o.name.s).length (slice src o.ls o.name.s)).isSome = true ∧
+             (decodeUtf8 (slice src o.name.s o.name.e).length (slice src o.name.s o.name.e)).isSome = true) :
+    let expected := os.map (fun o => (⟨unitsOf (slice src o.ls o.name.s),
+                                       unitsOf (slice src o.ls o.name.s) + unitsOf (slice src o.name.s o.name.e)⟩ : R))
+    (cacheFold utf16LenF src limit none os).map (·.u16) = expected ∧
+    (cacheFold utf16Len src limit none os).map (·.u16) = expected := by
+  have hv : ∀ o ∈ os, o.ls = rowLs o.row ∧ o.ls ≤ o.name.s ∧ o.name.s ≤ o.name.e ∧
+      validUtf8 (slice src o.ls o.name.s) = true ∧ validUtf8 (slice src o.ls o.name.e) = true := by
+    intro o ho
+    obtain ⟨h0, h1, h2, h3, h4⟩ := hos o ho
+    refine ⟨h0, h1, h2, (unitsOf_eq h3).2, ?_⟩
+    rw [slice_append src _ _ _ h1 h2]
+    exact valid_append _ _ (unitsOf_eq h3).2 (unitsOf_eq h4).2
+  have hexp : os.map (fun o => (⟨utf16Spec (slice src o.ls o.name.s), utf16Spec (slice src o.ls o.name.e)⟩ : R)) =
+      os.map (fun o => (⟨unitsOf (slice src o.ls o.name.s),
+                         unitsOf (slice src o.ls o.name.s) + unitsOf (slice src o.name.s o.name.e)⟩ : R)) := by
+    apply List.map_congr_left
+    intro o ho
+    obtain ⟨h0, h1, h2, h3, h4⟩ := hos o ho
+    rw [slice_append src _ _ _ h1 h2, utf16_spec_append _ _ (unitsOf_eq h3).2, (unitsOf_eq h3).1, (unitsOf_eq h4).1]
+  intro expected
+  exact ⟨by rw [cache_correct_utf16_fixed src limit rowLs os hv]; exact hexp,
+         by rw [cache_correct_utf16 src limit rowLs os hv]; exact hexp⟩
+
+
+/-- **utf16_len_valid_prefix.**  For a VALID UTF-8 byte string (the spec decoder `decodeUtf8`, Unicode
+Table 3-7, yields scalar values `cps`) the port of `utf16_len` — over the pinned and over the repaired
+`LossyUtf8` — equals the number of UTF-16 code units of the decoding: 1 per BMP scalar, 2 per
+supplementary scalar. -/
+theorem utf16_len_valid_prefix (b : Bytes) (cps : List Nat) (h : decodeUtf8 b.length b = some cps) :
+    utf16Len b = utf16Units cps ∧ utf16LenF b = utf16Units cps :=
+  ⟨(utf16Len_decode _ b cps h).1, (utf16Len_decode _ b cps h).2.1⟩
+
+/-- Non-vacuity with 1-, 2-, 3- and 4-byte characters: `aé€😀` decodes to U+61, U+E9, U+20AC, U+1F600 = 5 units. -/
+example : decodeUtf8 10 [0x61, 0xC3, 0xA9, 0xE2, 0x82, 0xAC, 0xF0, 0x9F, 0x98, 0x80] = some [0x61, 0xE9, 0x20AC, 0x1F600] ∧
+          utf16Units [0x61, 0xE9, 0x20AC, 0x1F600] = 5 := by decide
+/-- … and ill-formed input does not decode (overlong `C0 AF`, surrogate `ED A0 80`, truncated `E2 82`). -/
+example : decodeUtf8 2 [0xC0, 0xAF] = none ∧ decodeUtf8 3 [0xED, 0xA0, 0x80] = none ∧ decodeUtf8 2 [0xE2, 0x82] = none := by decide
+
+theorem slice_drop_take (text : Bytes) (ls0 a k : Nat) :
+    slice text (ls0 + a) (ls0 + a + k) = ((text.drop ls0).drop a).take k := by
+  unfold slice; rw [List.drop_drop]; congr 1; omega
+
+/-- **line_range_char_boundary.**  If the row of the tag is well-formed UTF-8, the bytes of the returned
+line range are well-formed UTF-8: the cut at `MAX_LINE_LEN` (and the trimming) never splits a character —
+the range starts and ends on character boundaries.  Stated for `lineSpec` and, under the hypothesis of
+`line_range_spec`, for the port of `line_range`. -/
+theorem line_range_char_boundary (text : Bytes) (startByte col limit : Nat)
+    (hv : validUtf8 ((text.drop (startByte - col)).takeWhile (· != 10)) = true) :
+    validUtf8 (slice text (lineSpec text (startByte - col) limit).s (lineSpec text (startByte - col) limit).e) = true ∧
+    ((∃ b ∈ (text.drop (startByte - col)).takeWhile (· != 10), isWs b = false) →
+      validUtf8 (slice text (lineRange text startByte col limit).s (lineRange text startByte col limit).e) = true) := by
+  have h1 : validUtf8 (slice text (lineSpec text (startByte - col) limit).s (lineSpec text (startByte - col) limit).e) = true := by
+    rw [lineSpec_core]; simp only []
+    rw [slice_drop_take]; exact specCore_valid _ limit hv
+  exact ⟨h1, fun h => by rw [line_range_spec text startByte col limit h]; exact h1⟩
+
+/-- Non-vacuity: limit 4 on `é€x` (2+3+1 bytes): the cut falls inside `€` and retreats to `[0,2)` = `é`. -/
+example : lineSpec [0xC3, 0xA9, 0xE2, 0x82, 0xAC, 0x78] 0 4 = ⟨0, 2⟩ ∧
+          lineSpec [0xF0, 0x9F, 0x98, 0x80, 0xF0, 0x9F, 0x98, 0x80] 0 6 = ⟨0, 4⟩ := by
+  constructor <;> simp [lineSpec, isWs, scan, stepAt, width, units, isCont, second3ok, second4ok]
+
+/-- **line_range_contains_name_start.**  Hypotheses: the name starts at `startByte` in column `col` of its
+row (`col ≤ startByte`, the column lies on the row), with a non-whitespace byte, inside the untrimmed cut
+(`cutOf`: the row without leading blanks, cut at the limit on a character boundary).  Then the returned
+range contains the name start. -/
+theorem line_range_contains_name_start (text : Bytes) (startByte col limit b : Nat) (hcol : col ≤ startByte)
+    (hrow : col < ((text.drop (startByte - col)).takeWhile (· != 10)).length)
+    (hb : text[startByte]? = some b) (hnw : isWs b = false)
+    (hcut : col < (specCore (text.drop (startByte - col)) limit).1 + (cutOf (text.drop (startByte - col)) limit).length) :
+    (lineRange text startByte col limit).s ≤ startByte ∧ startByte < (lineRange text startByte col limit).e := by
+  have hb' : (text.drop (startByte - col))[col]? = some b := by
+    rw [List.getElem?_drop]; have : startByte - col + col = startByte := by omega
+    rw [this]; exact hb
+  have hex : ∃ c ∈ (text.drop (startByte - col)).takeWhile (· != 10), isWs c = false := by
+    have hsplit : (text.drop (startByte - col)).takeWhile (· != 10) ++ (text.drop (startByte - col)).dropWhile (· != 10) =
+        text.drop (startByte - col) := List.takeWhile_append_dropWhile
+    refine ⟨b, ?_, hnw⟩
+    rw [← hsplit, List.getElem?_append_left hrow] at hb'
+    exact List.mem_of_getElem? hb'
+  have := specCore_contains (text.drop (startByte - col)) limit col b hrow hb' hnw hcut
+  rw [line_range_spec text startByte col limit hex, lineSpec_core]
+  simp only []
+  omega
+
+/-- Non-vacuity: `  é = foo(1);` — the name `foo` starts at byte 7, column 7. -/
+example : lineRange [32, 32, 0xC3, 0xA9, 32, 61, 32, 102, 111, 111, 40, 49, 41, 59] 7 7 180 = ⟨2, 14⟩ := by
+  simp [lineRange, isWs, scan, stepAt, width, units, isCont]
+
 end TsVerif.C18
